@@ -47,6 +47,8 @@ PATH_EXEMPT = {  # builders of paths that are not result files of a run folder: 
     "pipefunc.map.adaptive.LearnersDict.to_slurm_run": "adaptive_scheduler's own folder",
     "pipefunc.map.adaptive.create_learners_from_sweep": "one run folder per sweep entry (a folder name, not a result file)",
 }
+IO_CALLS = {"open", "load", "dump", "mkdir", "exists", "unlink", "read_bytes", "write_bytes", "read_text", "write_text", "rmtree", "glob", "iterdir", "is_file", "is_dir",
+            "atomic_write", "touch", "rename", "replace", "loads", "dumps", "stat"}
 SANITIZERS = {"dict", "list", "tuple", "set", "copy.copy", "copy.deepcopy"}
 
 
@@ -88,21 +90,7 @@ def _field_ops(ctx: Ctx, fn: FuncInfo, var: str) -> dict[str, set[str]]:
         for t in st.targets:
             if not (isinstance(t, ast.Subscript) and isinstance(t.value, ast.Name) and t.value.id == var):
                 continue
-            keys: list[str] = []
-            if isinstance(t.slice, ast.Constant) and isinstance(t.slice.value, str):
-                keys = [t.slice.value]
-            elif isinstance(t.slice, ast.Name):
-                x: ast.AST = st
-                while id(x) in par:
-                    x = par[id(x)]
-                    if isinstance(x, ast.For) and norm(x.target) == t.slice.id:
-                        src = x.iter
-                        if isinstance(src, ast.Name):
-                            d = [a.value for a in ast.walk(fn.node) if isinstance(a, ast.Assign) and any(norm(tt) == src.id for tt in a.targets)]
-                            keys += [e.value for v in d if isinstance(v, (ast.List, ast.Tuple)) for e in v.elts if isinstance(e, ast.Constant)]
-                            keys += [c.args[0].value for c in ast.walk(fn.node) if isinstance(c, ast.Call) and norm(c.func) == f"{src.id}.append" and c.args and isinstance(c.args[0], ast.Constant)]
-                        elif isinstance(src, (ast.List, ast.Tuple)):
-                            keys += [e.value for e in src.elts if isinstance(e, ast.Constant)]
+            keys = _literal_keys(fn, t.slice, st, par) or []
             for k in keys:
                 ops.setdefault(k, set()).update(_calls_feeding(ctx, fn, st.value, exclude=frozenset({var})))
     return ops
@@ -117,6 +105,51 @@ def _data_var(fn: FuncInfo, *makers: str) -> str | None:
                 if isinstance(s2, ast.Assign) and isinstance(s2.targets[0], ast.Name) and isinstance(s2.value, ast.Call) and _last(dotted(s2.value.func)) in makers:
                     return s2.targets[0].id
     return None
+
+
+def _literal_keys(fn: FuncInfo, key: ast.AST, at: ast.AST, par: dict) -> list[str] | None:
+    """The literal string keys `key` can denote at statement `at`: a constant, or the target of an enclosing loop over a
+    literal list / tuple (also one that is extended with `.append("...")`)."""
+    if isinstance(key, ast.Constant) and isinstance(key.value, str):
+        return [key.value]
+    if isinstance(key, ast.Name):
+        x: ast.AST = at
+        while id(x) in par:
+            x = par[id(x)]
+            if isinstance(x, ast.For) and norm(x.target) == key.id:
+                src = x.iter
+                if isinstance(src, (ast.List, ast.Tuple)) and all(isinstance(e, ast.Constant) for e in src.elts):
+                    return [e.value for e in src.elts]
+                if isinstance(src, ast.Name):
+                    d = [a.value for a in ast.walk(fn.node) if isinstance(a, ast.Assign) and any(norm(tt) == src.id for tt in a.targets)]
+                    if d and all(isinstance(v, (ast.List, ast.Tuple)) and all(isinstance(e, ast.Constant) for e in v.elts) for v in d):
+                        return [e.value for v in d for e in v.elts] + [c.args[0].value for c in ast.walk(fn.node) if isinstance(c, ast.Call) and norm(c.func) == f"{src.id}.append" and c.args and isinstance(c.args[0], ast.Constant)]
+                return None
+    return None
+
+
+def _key_events(fn: FuncInfo, var: str) -> list[tuple[tuple[int, int], str, str]] | None:
+    """Source-ordered edits of the key set of the mapping `var` in `fn`: ("store" | "del" | "pop", key); None when a
+    key cannot be determined."""
+    par = {id(c): p for p in ast.walk(fn.node) for c in ast.iter_child_nodes(p)}
+    ev: list[tuple[tuple[int, int], str, str]] = []
+    for n in ast.walk(fn.node):
+        kind = key = None
+        if isinstance(n, ast.Subscript) and isinstance(n.value, ast.Name) and n.value.id == var and isinstance(n.ctx, (ast.Store, ast.Del)):
+            kind, key = ("store" if isinstance(n.ctx, ast.Store) else "del"), n.slice
+        elif isinstance(n, ast.Call) and isinstance(n.func, ast.Attribute) and isinstance(n.func.value, ast.Name) and n.func.value.id == var and n.func.attr in ("pop", "setdefault", "update", "clear", "popitem"):
+            if n.func.attr in ("update", "clear", "popitem") or not n.args:
+                return None
+            kind, key = ("pop" if n.func.attr == "pop" else "store"), n.args[0]
+        if kind is None:
+            continue
+        keys = _literal_keys(fn, key, n, par)
+        if keys is None:
+            return None
+        # an assignment's target is written after its value was evaluated (a pop inside the value comes first)
+        pos = (n.lineno, n.col_offset) if kind != "store" else (getattr(par.get(id(n)), "end_lineno", n.lineno), 10_000)
+        ev += [(pos, kind, k) for k in keys]
+    return sorted(ev)
 
 
 def _keys_subscripted(fn_node: ast.AST, var: str, ctxs=(ast.Store, ast.Del, ast.Load)) -> list[tuple[str, ast.Subscript]]:
@@ -135,35 +168,48 @@ def rule_table(ctx: Ctx) -> None:  # noqa: C901
     dv, lv = _data_var(dump, "asdict"), _data_var(load, "load", "loads")
     if dv is None or lv is None:
         raise AnalysisError("RunInfo.dump / RunInfo.load: the mapping that is written / read was not found")
-    deleted = {k for k, n in _keys_subscripted(dump.node, dv, (ast.Del,))} | {c.args[0].value for c in ast.walk(dump.node) if isinstance(c, ast.Call) and norm(c.func) == f"{dv}.pop" and c.args and isinstance(c.args[0], ast.Constant)}
-    stored = {k for k, n in _keys_subscripted(dump.node, dv, (ast.Store,))}
-    written = (fields - deleted) | stored
-    pops = [c for c in ast.walk(load.node) if isinstance(c, ast.Call) and norm(c.func) == f"{lv}.pop" and c.args and isinstance(c.args[0], ast.Constant)]
-    popped = {c.args[0].value for c in pops}
-    stored_l = {k for k, n in _keys_subscripted(load.node, lv, (ast.Store,))}
-    read_l = {k for k, n in _keys_subscripted(load.node, lv, (ast.Load,))} | popped
-    events = [(n.lineno, n.col_offset, "store", k) for k, n in _keys_subscripted(load.node, lv, (ast.Store,))] + [(c.lineno, c.col_offset + 10_000, "pop", c.args[0].value) for c in pops]
-    after = set(written)
-    for _l, _c, kind, k in sorted(events):  # stores and pops of load() replayed in source order
-        if kind == "store":
-            after.add(k)
-        else:
-            after.discard(k)
-    ctx.add("1-table", load, load.node, after == fields, f"keys written {sorted(written)} are turned back into exactly the dataclass fields" if after == fields else
-            f"writer/reader disagree: written={sorted(written)}, popped={sorted(popped)}, added on load={sorted(stored_l)} -> {sorted(after)} but the fields are {sorted(fields)}", key="keyset")
-    unknown = read_l - written - stored_l
-    ctx.add("1-table", load, load.node, not unknown, "load only reads keys that dump writes" if not unknown else f"load reads keys that dump never writes: {sorted(unknown)}", key="reads-written")
+    ev_d, ev_l = _key_events(dump, dv), _key_events(load, lv)
+    if ev_d is None or ev_l is None:
+        ctx.add("1-table", load, load.node, None, "UNDECIDED: the mapping is edited under a key that is not a literal (or not a loop over literals): the key set cannot be replayed", key="keyset")
+    else:
+        after = set(fields)
+        for _pos, kind, k in ev_d:
+            (after.add if kind == "store" else after.discard)(k)
+        written = set(after)
+        for _pos, kind, k in ev_l:  # stores, pops and deletions of load() replayed in source order
+            (after.add if kind == "store" else after.discard)(k)
+        stored_l = {k for _p, kind, k in ev_l if kind == "store"}
+        removed_l = {k for _p, kind, k in ev_l if kind != "store"}
+        ctx.add("1-table", load, load.node, after == fields, f"keys written {sorted(written)} are turned back into exactly the dataclass fields" if after == fields else
+                f"writer/reader disagree: written={sorted(written)}, removed on load={sorted(removed_l)}, added on load={sorted(stored_l)} -> {sorted(after)} but the fields are {sorted(fields)}", key="keyset")
+        read_l = {k for k, n in _keys_subscripted(load.node, lv, (ast.Load,))} | {k for _p, kind, k in ev_l if kind == "pop"}
+        unknown = read_l - written - stored_l
+        ctx.add("1-table", load, load.node, not unknown, "load only reads keys that dump writes" if not unknown else f"load reads keys that dump never writes: {sorted(unknown)}", key="reads-written")
     ctor = [c for c in ast.walk(load.node) if isinstance(c, ast.Call) and norm(c.func) in ("cls", "RunInfo")]
     ctx.tri("1-table", load, ctor[0] if ctor else load.node, bool(ctor) and any(k.arg is None and norm(k.value) == lv for k in ctor[0].keywords), False, "the decoded mapping is passed whole to the constructor", "", "construction from the decoded mapping not recognised", key="ctor")
     ops_d, ops_l = _field_ops(ctx, dump, dv), _field_ops(ctx, load, lv)
-    enc = {k for k, v in ops_d.items() if "_maybe_tuple_to_str" in v}
-    dec = {k for k, v in ops_l.items() if "_maybe_str_to_tuple" in v}
-    ctx.tri("1-table", dump, dump.node, enc == dec and {"shapes", "shape_masks"} <= enc, enc != dec, f"tuple keys encoded and decoded for the same fields {sorted(enc)}",
+    # the tuple-key codec is found by what it does: a private helper of the module that joins / splits on a separator
+    mod = P.module(RI)
+
+    def sep_of(e: ast.AST) -> str | None:
+        if isinstance(e, ast.Constant) and isinstance(e.value, str):
+            return e.value
+        if isinstance(e, ast.Name) and isinstance(mod.assigns.get(e.id), ast.Constant):
+            return mod.assigns[e.id].value
+        return None
+
+    joiners = {f_.name: {sep_of(c.func.value) for c in ast.walk(f_.node) if isinstance(c, ast.Call) and isinstance(c.func, ast.Attribute) and c.func.attr == "join"} for f_ in P.functions_in(RI) if f_.cls is None}
+    splitters = {f_.name: {sep_of(c.args[0]) for c in ast.walk(f_.node) if isinstance(c, ast.Call) and isinstance(c.func, ast.Attribute) and c.func.attr == "split" and c.args} for f_ in P.functions_in(RI) if f_.cls is None}
+    joiners = {k: v for k, v in joiners.items() if v and "isinstance" in norm(P.func(f"{RI}.{k}").node)}
+    splitters = {k: v for k, v in splitters.items() if v and "tuple(" in norm(P.func(f"{RI}.{k}").node)}
+    enc = {k for k, v in ops_d.items() if v & set(joiners)}
+    dec = {k for k, v in ops_l.items() if v & set(splitters)}
+    ctx.tri("1-table", dump, dump.node, enc == dec and {"shapes", "shape_masks"} <= enc, bool(enc) and bool(dec) and enc != dec, f"tuple keys encoded and decoded for the same fields {sorted(enc)}",
             f"tuple keys are encoded for {sorted(enc)} but decoded for {sorted(dec)}: {sorted(enc ^ dec)} reload(s) with other keys than were recorded", "tuple-key coding not recognised", key="tuple-keys")
-    t2s, s2t = P.func(f"{RI}._maybe_tuple_to_str"), P.func(f"{RI}._maybe_str_to_tuple")
-    seps_w = {c.func.value.value for c in ast.walk(t2s.node) if isinstance(c, ast.Call) and isinstance(c.func, ast.Attribute) and c.func.attr == "join" and isinstance(c.func.value, ast.Constant)}
-    seps_r = {c.args[0].value for c in ast.walk(s2t.node) if isinstance(c, ast.Call) and isinstance(c.func, ast.Attribute) and c.func.attr == "split" and c.args and isinstance(c.args[0], ast.Constant)}
-    ctx.tri("1-table", t2s, t2s.node, bool(seps_w) and seps_w == seps_r, bool(seps_w) and bool(seps_r) and seps_w != seps_r, "same separator for joining and splitting tuple keys",
+    seps_w = {x for k in joiners for x in joiners[k]}
+    seps_r = {x for k in splitters for x in splitters[k]}
+    t2s = P.func(f"{RI}.{sorted(joiners)[0]}") if joiners else dump
+    ctx.tri("1-table", t2s, t2s.node, bool(seps_w) and seps_w == seps_r and None not in seps_w, bool(seps_w) and bool(seps_r) and None not in (seps_w | seps_r) and seps_w != seps_r, "same separator for joining and splitting tuple keys",
             f"separator mismatch: tuple keys are written with {seps_w} and split on {seps_r}", "separators not recognised", key="separator")
     # decode requirements derived from the field annotations
     need: dict[str, str] = {}
@@ -207,8 +253,14 @@ def rule_paths(ctx: Ctx) -> None:
                 if not any(isinstance(x, (ast.Constant, ast.JoinedStr)) and (not isinstance(x, ast.Constant) or isinstance(x.value, str)) for x in (b_.left, b_.right)) and "format(" not in norm(b_.right):
                     continue
                 n_paths += 1
-                ok = fn.qualname in PATH_HELPERS or fn.qualname in PATH_EXEMPT or (fn.name.startswith("_") and "path" in fn.name and fn.module.name == RI)
-                ctx.add("2-paths", fn, b_, ok, "path built by a path helper" if ok else f"`{norm(b_)[:70]}` builds a run-folder path by hand: writer and reader can drift apart", key=f"path in {fn.name}: {norm(b_)[:50]}")
+                # a path helper is recognised by what it is: a function that only computes and returns paths (no file
+                # access of its own), so that writer and reader both have to go through it
+                io = [c for c in walk_no_nested(fn.node) if isinstance(c, ast.Call) and _last(dotted(c.func) or (c.func.attr if isinstance(c.func, ast.Attribute) else "")) in IO_CALLS]
+                returns = any(isinstance(r, ast.Return) and r.value is not None for r in walk_no_nested(fn.node))
+                ok = fn.qualname in PATH_EXEMPT or (returns and not io)
+                ctx.tri("2-paths", fn, b_, ok, bool(io), "path built by a path helper (a function that only computes and returns paths)",
+                        f"`{norm(b_)[:70]}` builds a run-folder path by hand in a function that also accesses files (`{norm(io[0])[:40] if io else ''}`): writer and reader can drift apart",
+                        f"`{norm(b_)[:50]}`: neither a pure path helper nor a function accessing files", key=f"path in {fn.name}: {norm(b_)[:50]}")
     ctx.floor("2-paths", n_paths, 6)
     wr = ri.methods["_write"]
     reach = ctx.cg.reachable(wr.qualname)
